@@ -51,6 +51,7 @@ Local Arguments put_bundler {P D}.
 Local Arguments any_bundling {P D}.
 Local Arguments add_status {P D}.
 Local Arguments request_pause {P D}.
+Local Arguments request_pause_in_task {P D}.
 Local Arguments finish_read {P D}.
 Local Arguments mark_cached {P D}.
 Local Arguments exec_cmd {P D}.
@@ -188,13 +189,20 @@ Proof.
   rewrite Ha in H. cbn [negb] in H. invc H. auto.
 Qed.
 
+Lemma request_pause_in_task_term (s : st) d s' e o :
+  term_state (state s) = true -> request_pause_in_task s d = (s', e, o) -> state s' = state s /\ pc s' = pc s.
+Proof.
+  intros Ht. unfold request_pause_in_task. destruct (request_pause s d) as [[s1 e1] o1] eqn:E.
+  apply (request_pause_term _ _ _ _ _ Ht) in E. intros H; invc H. destruct (resumable s); exact E.
+Qed.
+
 Lemma exec_cmd_term (s : st) m s' c o :
   term_state (state s) = true -> exec_cmd dev s m = (s', c, o) -> state s' = state s.
 Proof.
   intros Ht H. destruct (mcmd m) eqn:Ec;
     try (apply RE_Inv.exec_cmd_same in H; [unfold RE_Inv.same in H; tauto | intros d0 Hd; rewrite Ec in Hd; discriminate Hd]).
   destruct (RE_Inv.exec_cmd_pause _ _ dev _ _ _ _ _ _ Ec H) as (e & o' & Hrp & _).
-  apply (request_pause_term _ _ _ _ _ Ht Hrp).
+  apply (request_pause_in_task_term _ _ _ _ _ Ht Hrp).
 Qed.
 
 Lemma term_dstep (s : st) c r0 :
@@ -687,9 +695,10 @@ Proof.
                 eapply live_same; [|exact HL2];
                 destruct (RE_Inv.exec_cmd_same _ _ _ _ _ _ _ _ Hnp Ex) as (_ & _ & _ & _ & _ & X & _); exact X).
       - destruct (RE_Inv.exec_cmd_pause _ _ _ _ _ _ _ _ _ Ec Ex) as (e & o' & Hrp & _).
-        eapply live_same; [|exact HL2]. destruct (RE_Inv.request_pause_spec _ _ _ _ _ _ _ Hrp) as [[[Hs _] _]|Hs].
+        eapply live_same; [|exact HL2]. destruct (RE_Inv.request_pause_in_task_spec _ _ _ _ _ _ _ Hrp) as [[[Hs _] _]|[[_ Hs]|[_ Hs]]].
         + unfold RE_Inv.same in Hs. tauto.
         + unfold RE_Inv.pause_acc in Hs. tauto.
+        + unfold RE_Inv.pause_acc_nc in Hs. tauto.
       - destruct (RE_Inv.exec_start_suspender_spec _ _ _ _ _ _ _ _ _ _ _ Ex) as (_ & [E|[f E]]); unfold RE_Inv.same in E.
         + eapply live_same; [|exact HL2]. tauto.
         + eapply live_push; [|exact HL2]. destruct E as (_ & _ & _ & _ & _ & X & _). simp_st. exact X. }
